@@ -40,7 +40,9 @@ class G:
                   "{{ .InterfaceDir | base | replaceAll \"-\" \"_\" }}", "{{if eq .Mock \"Mock\"}}Pub{{else}}priv{{end}}",
                   "{{ .Template | base | trimSuffix \".templ\" }}", "{{- .InterfaceName -}}", "{{ .SrcPackagePath | dir | base | replaceAll \".\" \"_\" }}",
                   "{{if hasPrefix \"St\" .InterfaceName}}S{{else if hasSuffix \"r\" .InterfaceName}}R{{else}}O{{end}}",
-                  "{{ .InterfaceName | exported }}"])
+                  "{{ .InterfaceName | exported }}", "{{ .InterfaceName | trimSuffix \"Service\" }}", "{{ .InterfaceName | trimSuffix \"e\" }}",
+                  "{{ .InterfaceName | trimPrefix \"S\" | trimSuffix \"ore\" }}", "{{ trimSuffix \"go\" (.InterfaceFile | base | replaceAll \".\" \"\") }}",
+                  "{{ .InterfaceFile | base | trimSuffix \".go\" | trimPrefix \"c\" }}"])
         return base
 
     def ident(self, n=None):
@@ -73,7 +75,7 @@ def gen_case(rng, i):
     cwdmode = rng.choice(["cfgdir", "cfgdir", "subdir", "other-flag", "other-env"])
     g = G(rng, cwdmode == "cfgdir")
     exported = rng.random() < 0.7
-    iname = rng.choice(["Store", "Reader", "HTTPDoer", "Worker"]) if exported else rng.choice(["store", "reader", "httpDoer"])
+    iname = rng.choice(["Store", "Reader", "HTTPDoer", "Worker", "UserService", "Catalogue"]) if exported else rng.choice(["store", "reader", "httpDoer", "cacheService"])
     exprs = {}
     kind = rng.choice(["plain", "plain", "chain", "deep", "selfref", "schema", "defaults"])
     if kind != "defaults":
@@ -109,8 +111,10 @@ def gen_case(rng, i):
     if kind == "schema":
         exprs["template-schema"] = rng.choice(["file://{{.ConfigDir}}/schemas/{{.SrcPackageName}}.json",
                                                "{{.Template}}.custom.json", "file://{{.InterfaceDir}}/schema.json"])
+    # the declaring file: its name matters to .InterfaceFile; a //line directive (generated sources: goyacc, cgo, protoc plugins) must not change it
     return {"kind": "expr", "i": i, "layout": layout, "cwd": cwdmode, "cfgname": rng.choice([".mockery.yml", ".mockery.yaml"]),
-            "iface": iname, "exprs": exprs, "what": kind}
+            "iface": iname, "exprs": exprs, "what": kind, "srcfile": rng.choice(["iface.go", "iface.go", "catalog.go", "billing.go", "go.go", "api_gogo.go"]),
+            "linedir": rng.choice([None, None, None, "gen/grammar.y:9", "/abs/elsewhere/x.go:1", "other.go:3"])}
 
 
 KF_IDR = {"kind": "expr", "i": -1, "layout": "nested", "cwd": "subdir", "cfgname": ".mockery.yml", "iface": "Store", "what": "kf-interfacedirrelative",
@@ -122,13 +126,20 @@ FIXED = [
     {"kind": "expr", "i": -3, "layout": "rootpkg", "cwd": "other-env", "cfgname": ".mockery.yaml", "iface": "reader", "what": "env-config",
      "exprs": {"structname": "{{.Mock}}{{.InterfaceName | firstUpper}}", "dir": "{{.ConfigDir}}/gen", "filename": "{{.InterfaceName}}.go", "pkgname": "{{.SrcPackageName}}x"}},
     KF_IDR,
+    {"kind": "expr", "i": -4, "layout": "nested", "cwd": "cfgdir", "cfgname": ".mockery.yml", "iface": "UserService", "what": "file-and-suffix", "srcfile": "catalog.go", "linedir": None,
+     "exprs": {"structname": "M{{ .InterfaceName | trimSuffix \"Service\" }}", "dir": "{{.InterfaceFile | dir}}/m", "filename": "{{ .InterfaceFile | base | trimSuffix \".go\" }}_mock.go", "pkgname": "m"}},
+    {"kind": "expr", "i": -5, "layout": "sub", "cwd": "cfgdir", "cfgname": ".mockery.yml", "iface": "Store", "what": "line-directive", "srcfile": "billing.go", "linedir": "gen/grammar.y:9",
+     "exprs": {"structname": "MockStore", "dir": "{{.InterfaceDir}}/m", "filename": "{{ .InterfaceFile | base | trimSuffix \".go\" }}_mock.go", "pkgname": "m"}},
 ]
 
 
 def eval_case(ctx, case):
     reldir, pkgname = LAYOUTS[case["layout"]]
     iname = case["iface"]
-    files = {os.path.join(reldir, "iface.go"): "package %s\n\ntype %s interface{ Do(x int) error }\n" % (pkgname, iname),
+    srcfile = case.get("srcfile", "iface.go")
+    linedir = ("//line %s\n" % case["linedir"]) if case.get("linedir") else ""
+    files = {os.path.join(reldir, srcfile): "package %s\n\n%stype %s interface{ Do(x int) error }\n" % (pkgname, linedir, iname),
+             os.path.join(reldir, "aaa_first.go"): "package %s\n\nvar _ = 0\n" % pkgname, os.path.join(reldir, "zzz_last.go"): "package %s\n\nvar _ = 1\n" % pkgname,
              "cwdsub/deeper/keep.go": "package deeper\n", "elsewhere/keep.go": "package elsewhere\n",
              "probeA.templ": probe.probe_template("A")}
     root = core.scratch_module(ctx, files)
@@ -158,7 +169,7 @@ def eval_case(ctx, case):
     cfgdir = os.path.dirname(cfgpath)
     ifacedir = os.path.join(root, reldir) if reldir else root
     data = {"ConfigDir": cfgdir, "InterfaceDir": ifacedir, "InterfaceDirRelative": os.path.relpath(ifacedir, cfgdir),
-            "InterfaceFile": os.path.join(ifacedir, "iface.go"), "InterfaceName": iname, "Mock": "Mock" if iname[0].isupper() else "mock",
+            "InterfaceFile": os.path.join(ifacedir, srcfile), "InterfaceName": iname, "Mock": "Mock" if iname[0].isupper() else "mock",
             "SrcPackageName": pkgname, "SrcPackagePath": srcpath, "Template": tmpl}
     eff = cfgmodel.resolve([exprs])
     data["StructName"] = eff["structname"]
@@ -185,7 +196,7 @@ def eval_case(ctx, case):
         f.write(json.dumps(cfg))
     before = core.snapshot(root)
     r = core.run_mockery(ctx, cwd, args, env_extra=env, timeout=900, cpu_limit=CPU_LIMIT)
-    tags = ["what=" + case["what"], "cwd=" + case["cwd"], "layout=" + case["layout"]]
+    tags = ["what=" + case["what"], "cwd=" + case["cwd"], "layout=" + case["layout"], "srcfile=" + srcfile] + (["line-directive"] if linedir else [])
     obs = {"exit": r.exit, "exprs": exprs, "cwd": os.path.relpath(cwd, root), "config": os.path.relpath(cfgpath, root)}
     if r.cpu_killed:
         return Verdict.violated("evaluation did not terminate within %d CPU-seconds" % CPU_LIMIT, dict(obs, **r.brief()), tags)
